@@ -46,6 +46,33 @@ def t_kbint(tid):
     raise KeyboardInterrupt()
 
 
+class StatefulError(Exception):
+    """constructor with several arguments of which only a message reaches Exception.__init__; the rest lives in the instance"""
+    def __init__(self, code, detail):
+        super().__init__(f"failed with {code}")
+        self.code, self.detail = code, detail
+
+    def __reduce__(self):
+        return (StatefulError, (self.code, self.detail))
+
+
+def t_raise_json(tid):
+    """an exception whose class cannot be rebuilt as type(e)(*e.args): json.JSONDecodeError(msg, doc, pos)"""
+    _log(tid)
+    import json
+    json.loads('{"unterminated": ')
+
+
+def t_raise_stateful(tid):
+    _log(tid)
+    raise StatefulError(tid, "detail")
+
+
+def t_raise_oserror(tid):
+    _log(tid)
+    raise FileNotFoundError(2, "No such file or directory", f"/nonexistent/{tid}")
+
+
 def t_die(tid, sig=9):
     """the task takes its worker down (segfault / os._exit / kill -9)"""
     _log(tid)
@@ -107,6 +134,12 @@ def submit_kind(ex, kind, tid):
         return ex.submit(t_value, tid, 3)
     if kind == "raise":
         return ex.submit(t_raise, tid)
+    if kind == "raise_json":
+        return ex.submit(t_raise_json, tid)
+    if kind == "raise_stateful":
+        return ex.submit(t_raise_stateful, tid)
+    if kind == "raise_oserror":
+        return ex.submit(t_raise_oserror, tid)
     if kind == "sysexit":
         return ex.submit(t_sysexit, tid)
     if kind == "kbint":
@@ -140,12 +173,22 @@ def classify_future(f):
         return ("value", r[1]) if isinstance(r, tuple) else ("other", repr(r))
     name = type(e).__name__
     cause = type(e.__cause__).__name__ if e.__cause__ is not None else None
-    return (name, cause)
+    extra = None
+    if name == "StatefulError":
+        extra = (getattr(e, "code", None) is not None, getattr(e, "detail", None))
+    elif name == "FileNotFoundError":
+        extra = (e.errno, bool(e.filename))
+    elif name == "JSONDecodeError":
+        extra = (getattr(e, "pos", None), getattr(e, "doc", None))
+    return (name, cause) if extra is None else (name, cause, extra)
 
 
 EXPECT = {
     "value": lambda tid: ("value", tid), "long": lambda tid: ("value", tid),
     "raise": lambda tid: ("TaskError", "_RemoteTraceback"),
+    "raise_json": lambda tid: ("JSONDecodeError", "_RemoteTraceback", (17, '{"unterminated": ')),
+    "raise_stateful": lambda tid: ("StatefulError", "_RemoteTraceback", (True, "detail")),
+    "raise_oserror": lambda tid: ("FileNotFoundError", "_RemoteTraceback", (2, True)),
     "sysexit": lambda tid: ("SystemExit", "_RemoteTraceback"),
     "kbint": lambda tid: ("KeyboardInterrupt", "_RemoteTraceback"),
     "badarg": lambda tid: ("PicklingError", "_RemoteTraceback"),
